@@ -150,6 +150,10 @@ theorem Rep.assign {K : PCtx} {exitJ : Nat} (wf : K.WFS exitJ) {σ σ' : X.St} {
       have := (wf.arr_hi id (by omega)).1
       rw [Mem.read_write_other _ _ _ _ (by omega)]
       exact hv' idx w' hi
+    strs := by
+      intro l bs ws j k hm hp hd idx hidx
+      rw [Mem.read_write_other _ _ _ _ (fun e => wf.str.sep l bs ws j k n a idx hm hp hd hloc hidx e.symm)]
+      exact hr.strs l bs ws j k hm hp hd idx hidx
     gvis := by
       intro m hm
       rcases writeName_cases K.xc σ σ' n w hw with ⟨o, hl, rfl⟩ | ⟨hl, hg, rfl⟩
@@ -294,7 +298,17 @@ theorem Rep.assignSub {K : PCtx} (wf : K.WF) {σ : X.St} {mem : Mem} {id : Nat} 
         have hlt := cell_lt hi
         have hd := wf.arr_disj id id' hid hz (by omega)
         rw [Mem.read_write_other _ _ _ _ (by omega)]
-        exact hcv' idx w' hi }
+        exact hcv' idx w' hi
+    strs := by
+      intro l bs ws j k hm hp hd idx hidx
+      obtain ⟨j', k', hd', _, _, hlt⟩ := wf.str.lbl l bs ws hm hp
+      have hj : j = j' := by
+        have e1 := labelIdx_of_nodup _ _ _ _ wf.nodup hd
+        have e2 := labelIdx_of_nodup _ _ _ _ wf.nodup hd'
+        rw [e1] at e2; simpa using e2
+      subst hj
+      rw [hlow _ (by omega)]
+      exact hr.strs l bs ws j k hm hp hd idx hidx }
 
 /-- What the machine does for a statement whose execution has the result `r`: runs to `jEnd`
     (normal completion), to the procedure's exit label with the value in areg (`return`), or to the
